@@ -5,9 +5,10 @@ ID=$1; SD=$2
 WT=/tmp/cv_$ID
 rm -rf $WT; git -C /repo worktree prune; git -C /repo worktree add --detach $WT HEAD -q || exit 2
 STD=-std=c++17; grep -q backmp11 $SD/demo.cpp && STD=-std=c++20
+LIBS=""; grep -q "boost/archive" $SD/demo.cpp && LIBS="-lboost_serialization"
 LOG=$SD/confirm.log; : > $LOG
-g++ $STD -O0 -w -I$WT/include -o $WT/demo_ok $SD/demo.cpp >>$LOG 2>&1; $WT/demo_ok >>$LOG 2>&1; echo "demo on unpatched tree: exit $?" | tee -a $LOG
+g++ $STD -O0 -w -I$WT/include -o $WT/demo_ok $SD/demo.cpp $LIBS >>$LOG 2>&1; $WT/demo_ok >>$LOG 2>&1; echo "demo on unpatched tree: exit $?" | tee -a $LOG
 git -C $WT apply $SD/patch.diff || { echo "patch does not apply" | tee -a $LOG; }
-g++ $STD -O0 -w -I$WT/include -o $WT/demo_bad $SD/demo.cpp >>$LOG 2>&1; $WT/demo_bad >>$LOG 2>&1; echo "demo on patched tree: exit $?" | tee -a $LOG
+g++ $STD -O0 -w -I$WT/include -o $WT/demo_bad $SD/demo.cpp $LIBS >>$LOG 2>&1; $WT/demo_bad >>$LOG 2>&1; echo "demo on patched tree: exit $?" | tee -a $LOG
 /verif/tools/baseline_off.sh $WT > $WT/suite.log 2>&1; rc=$?; tail -12 $WT/suite.log >> $LOG; echo "existing suite with the patch: exit $rc" | tee -a $LOG
 git -C /repo worktree remove --force $WT
